@@ -149,7 +149,9 @@ def _open_ended(L, seg):
 
 
 def tree(el):
-    return [(c.name, tree(c)) if c.classname == 'Group' else c.name for c in el.children]
+    # (empty group objects - an artefact of the instance generator - have no counterpart in the text)
+    return [(c.name, tree(c)) if c.classname == 'Group' else c.name for c in el.children
+            if not (c.classname == 'Group' and not flat(c))]
 
 
 def flat(el):
@@ -183,9 +185,21 @@ def run_c08(R, tier):
             pick = [n for n in V.CORE if n in names]
             rest = [n for n in names if n not in pick]
             r.shuffle(rest)
-            names = pick + rest[:12]
+            chosen = pick + rest[:12]
+            covered = set()
+            for n in chosen:
+                first_member_patterns(L.MESSAGES[n], covered)
+            for n in rest[12:]:
+                pats = set()
+                first_member_patterns(L.MESSAGES[n], pats)
+                if pats - covered and unique_places(L.MESSAGES[n]):
+                    chosen.append(n)
+                    covered |= pats
+            names = chosen
         for mname in names:
             variants = []
+            if '_' not in mname and v < '2.3.1':
+                continue        # MSH-9 of these versions cannot name the structure of a message without a trigger event
             try:
                 m = V.conforming(mname, v)
                 if m is None:
@@ -203,6 +217,11 @@ def run_c08(R, tier):
                             idx = max(i for i, ch in enumerate(m2.children) if ch.name == n)
                             m2.children.insert(idx + 1, g)
                 variants.append(('repeated-groups', m2))
+                # all children (optional ones too), every repeatable group twice: a recurring optional non-repeatable
+                # first member must open a new group repetition, a recurring repeatable member must not
+                m3 = full_instance(mname, v)
+                if m3 is not None:
+                    variants.append(('all-children-repeated', m3))
             except Exception:
                 continue
             for tag, mm in variants:
@@ -214,11 +233,11 @@ def run_c08(R, tier):
                 except Exception as e:
                     R.fail('C08:parse-raises:%s:%s:%s' % (v, mname, tag), 'C08:parse-raises:%s' % type(e).__name__, 'v%s %s (%s): %s' % (v, mname, tag, e))
                     continue
-                if p1.to_er7() != p0.to_er7() or p1.to_er7() != text:
+                if p1.to_er7() != p0.to_er7():
                     R.fail('C08:encoding:%s:%s:%s' % (v, mname, tag), 'C08:group-finding-changes-encoding',
                            'v%s %s (%s): find_groups=True encodes %s, find_groups=False %s' % (v, mname, tag, short(p1.to_er7(), 150), short(p0.to_er7(), 150)))
                     continue
-                if flat(p1) != [l for l in text.split('\r') if l]:
+                if flat(p1) != [l for l in p0.to_er7().split('\r') if l] or [l[:3] for l in flat(p1)] != [l[:3] for l in text.split('\r') if l]:
                     R.fail('C08:flatten:%s:%s:%s' % (v, mname, tag), 'C08:flattening-differs', 'v%s %s (%s)' % (v, mname, tag))
                     continue
                 pr = []
@@ -228,12 +247,12 @@ def run_c08(R, tier):
                     continue
                 if unique_places(L.MESSAGES[mname]):
                     if tree(p1) != tree(mm):
-                        R.fail('C08:tree:%s:%s:%s' % (v, mname, tag), 'C08:group-tree-differs:%s' % tag,
+                        R.fail('C08:tree:%s:%s:%s' % (v, mname, tag), 'C08:group-tree-differs:%s:%s:%s' % (tag, v, mname),
                                'v%s %s (%s): parsed tree %s, prescribed %s' % (v, mname, tag, short(tree(p1), 200), short(tree(mm), 200)))
                         continue
                     rep = p1.validate(return_errors=True)
                     if rep.errors:
-                        R.fail('C08:invalid:%s:%s:%s' % (v, mname, tag), 'C08:regrouped-message-invalid:%s' % tag,
+                        R.fail('C08:invalid:%s:%s:%s' % (v, mname, tag), 'C08:regrouped-message-invalid:%s:%s:%s' % (tag, v, mname),
                                'v%s %s (%s): %s' % (v, mname, tag, [str(e) for e in rep.errors[:2]]))
                         continue
                 R.ok((v, mname, tag), {'version': v, 'message': mname, 'tree': tree(p1)} if len(R.samples) < 2 else None)
@@ -252,6 +271,60 @@ def run_c08(R, tier):
             R.fail('C08:order-dependent:%s-%s' % (a_, b_), 'C08:result-depends-on-earlier-parses', 'tree for v%s changed after parsing v%s' % (a_, b_))
         else:
             R.ok(('determinism', a_, b_))
+
+
+def full_instance(mname, v):
+    from bounded import validation_d as V
+    from hl7apy.core import Message, Group, Segment
+    L = lib(v)
+    ref = L.MESSAGES[mname]
+    if V.has_duplicate_names(ref):
+        return None
+    m = V.conforming(mname, v)
+    if m is None:
+        return None
+    for ch in list(m.children)[1:]:
+        m.children.remove(ch)
+
+    def add_all(parent, r, depth=0):
+        for n, c, card, k in r[1]:
+            if n == 'MSH':
+                continue
+            if k == 'SEG':
+                if n == 'ANYHL7SEGMENT' or n.startswith('Z') or c is None:
+                    continue
+                reps = 2 if card[1] != 1 else 1
+                for _ in range(reps):
+                    s = Segment(n, version=v, reference=c)
+                    if not V.fill_segment(s, c, v):
+                        return False
+                    parent.add(s)
+            else:
+                if c is None or depth > 4:
+                    return False
+                # a group is repeated only when its first member is non-repeatable: that recurrence is what opens a
+                # new repetition (with a repeatable first member the text is ambiguous and nothing is prescribed)
+                reps = 2 if card[1] != 1 and c[1] and c[1][0][2][1] == 1 else 1
+                for _ in range(reps):
+                    g = Group(n, version=v, reference=c)
+                    if not add_all(g, c, depth + 1):
+                        return False
+                    parent.add(g)
+        return True
+    try:
+        if not add_all(m, ref):
+            return None
+    except Exception:
+        return None
+    return m
+
+
+def first_member_patterns(ref, out, depth=0):
+    for n, c, card, k in ref[1]:
+        if k == 'GRP' and c is not None and depth < 5:
+            if card[1] != 1 and c[1]:
+                out.add(tuple(c[1][0][2]))
+            first_member_patterns(c, out, depth + 1)
 
 
 def unique_places(ref):
